@@ -142,8 +142,8 @@ def run(ctx):
                 "(multiples of 0.5 A: on-threshold pairs are exact); real radii tables csd/jmol/ase x vdw_scale incl. elements without tabulated radii (numeric "
                 "oracle); molecules on the implementation's own bond list; distinct = (kind, sizes, outcome)")
     ctx.trusted += ["hand model coq/model/Bonds.v on the C03 lattice model (coordinates and radii doubled to integers); numpy float norms are compared exactly on "
-                    "integer geometries", "connected components (the converse of molecules_closed) and the re-assembly offsets are decided by an oracle "
-                    "(union-find; potential consistency), not proved"]
+                    "integer geometries", "that a finite molecule's offsets are consistent along EVERY bond (not only those the traversal walked) is decided by an oracle "
+                    "(potential consistency); connectivity (molecules_connected) and offsets along the traversal (molecules_offsets) are proved"]
     ctx.build_props()
     ctx.build_models(["model/Bonds.vo"])
     for k in ctx.known:
